@@ -35,7 +35,7 @@ class C11(BaseCheck):
   REQUIRED_ANCHORS = ANCHORS
   REQUIRED_CLASSES = ('thriftmux', 'kafka', 'adv:duplicate-reply', 'adv:unknown-tag', 'adv:reserved-tag-1',
                       'adv:tag-0', 'adv:huge-tag', 'adv:bitflip-tag', 'error-frame-replies', 'kafka:timeouts', 'tagpool:exhausted', 'tagpool:get-after-refusal', 'direct:bare-messages', 'direct:expired-while-opening', 'direct:retry-from-reply-handler', 'direct:answered-after-expiry-in-queue', 'timeout-before-send', 'timeout-after-send', 're-open',
-                      'tag-reuse', 'yielding-log-handler', 'direct:reply-handler-yields', 'direct:answered-twice-handler-yields', 'replies-in-several-segments', 'large-tags')
+                      'tag-reuse', 'yielding-log-handler', 'direct:reply-handler-yields', 'direct:answered-twice-handler-yields', 'replies-in-several-segments', 'large-tags', 'callers-abandon-behind-deep-backlog')
   ASSUMPTIONS = ('a tag counts as answered when the client has read the last byte of any R-frame carrying it '
                  '(known from the simulated socket\'s read offsets)',)
   QUICK_CASES = 720
@@ -356,6 +356,119 @@ class C11(BaseCheck):
     top.Close()
     env.advance(0.1)
 
+  def _abandoned_behind_backlog(self, env, rng, out, classes):
+    """Callers that hand their requests to the transport themselves (timeout sink -> serializer -> ThriftMux
+    transport, no dispatcher greenlet in between).  The peer stops reading: one request sits in a blocked
+    write and more than a thousand wait behind it; a few more callers, each under a gevent.Timeout of its
+    own, make their calls in that state and give up when the timeout hits (wherever the call is then).  The
+    peer recovers and answers everything.  Afterwards nothing is unanswered, so a burst of as many
+    unanswered requests as were unanswered at the peak of the backlog needs no tag beyond those used then:
+    a request that was never written may not keep a tag.  (Which free tag a request gets is the pool's
+    business.)"""
+    import gevent
+    from scales.constants import SinkProperties, MessageProperties
+    from scales.loadbalancer.zookeeper import Endpoint
+    from scales.message import Deadline, MethodCallMessage
+    from scales.sink import ClientMessageSink, ClientMessageSinkStack, TimeoutSinkProvider
+    from scales.thriftmux.sink import SocketTransportSink as MuxTransport, ThriftMuxMessageSerializerSink
+    from vlib import servers
+    from vlib.stackworld import get_net, _PORT
+    from vlib.gen.verifsvc import ExtService
+    classes.add('callers-abandon-behind-deep-backlog')
+    net = get_net(env)
+    net.reset()
+    _PORT[0] += 1
+    port = _PORT[0]
+    mode = {'answer': True}
+
+    class Pol(servers.DefaultPolicy):
+      def __call__(self, server, conn, req):
+        return {'delay': 0.001} if mode['answer'] else {'drop': True}
+    srv = servers.MuxServer(net, 'bk', port, Pol())
+    tp = MuxTransport.Builder()
+    sp = ThriftMuxMessageSerializerSink.Builder()
+    sp.next_provider = tp
+    tprov = TimeoutSinkProvider()
+    tprov.next_provider = sp
+    top = tprov.CreateSink({SinkProperties.Endpoint: Endpoint('bk', port), SinkProperties.Label: 'c11b',
+                            SinkProperties.ServiceInterface: ExtService.Iface})
+    done = []
+    issued = [0]
+
+    class Term(ClientMessageSink):
+      def AsyncProcessRequest(self, *a):
+        raise NotImplementedError()
+
+      def AsyncProcessResponse(self, sink_stack, context, stream, msg):
+        done.append(context)
+    term = Term()
+
+    def request():
+      n_ = issued[0]
+      issued[0] += 1
+      msg = MethodCallMessage(ExtService.Iface, 'echo', ('b%d' % n_,), {})
+      msg.properties[MessageProperties.Endpoint] = None
+      msg.properties[Deadline.KEY] = env.now + 600.0
+      st = ClientMessageSinkStack()
+      st.Push(term, n_)
+      top.AsyncProcessRequest(st, msg, None, {})      # in the caller's own greenlet
+    facts = {'transport': 'thriftmux-direct', 'adversarial': ['abandoned-behind-backlog']}
+    open_ar = top.Open()
+    env.advance(0.5)
+    if not open_ar.ready() or open_ar.exception is not None:
+      out.violate('direct:open-failed', repr(open_ar.exception if open_ar.ready() else 'pending'), facts)
+      return
+    gevent.spawn(request)
+    env.advance(0.2)
+    srv.sim.send_delay = lambda conn: 5.0
+    gevent.spawn(request)
+    env.advance(0.001)          # the writer has taken this one and is blocked in its write
+    nback = rng.choice([1023, 1024, 1030, 1100])
+
+    def many():
+      for _ in range(nback):
+        request()
+    g_many = gevent.spawn(many)
+    env.advance(0.01)
+
+    def impatient():
+      with gevent.Timeout(rng.choice([0.02, 0.05, 0.3]), False):
+        request()
+    gs = [gevent.spawn(impatient) for _ in range(rng.randint(2, 8))]
+    env.advance(1.0)
+    srv.sim.send_delay = None
+    for _ in range(60):
+      env.advance(1.0)
+      if g_many.ready() and all(g.ready() for g in gs) and len(done) >= len(srv.requests) and len(srv.requests) > nback:
+        break
+    env.advance(1.0)
+    facts['backlog'] = nback
+    # every request the peer received in that phase was unanswered at the moment it started reading again:
+    # that many tags were held at once, legitimately
+    P = len(srv.requests) - 1
+    mode['answer'] = False
+    n0 = len(srv.requests)
+
+    def burst():
+      for _ in range(P):
+        request()
+    gevent.spawn(burst)
+    env.advance(3.0)
+    tags = [q['tag'] for q in srv.requests[n0:]]
+    hi = max([q['tag'] for q in srv.requests] or [1])
+    out.obligations += 2
+    if len(tags) != P:
+      out.violate('backlog:burst-not-written', '%d of the %d requests of the final burst reached the peer' % (len(tags), P), facts)
+    elif hi > 1 + P:
+      out.violate('tag:unbounded-consumption', 'a backlog of %d requests behind a peer that did not read (with %d callers giving up '
+                  'meanwhile) was answered completely; %d requests were unanswered at its peak, and a later burst of as many '
+                  'unanswered requests drove the highest tag to %d: at most %d tags were ever held at once' % (
+                    nback, len(gs), P, hi, P), dict(facts, after_backlog=True), {'highest_tags': sorted(tags)[-6:]})
+    for bf in srv.bad_frames:
+      out.violate('bad-frame', 'server could not decode client bytes: %r' % (bf,), facts)
+    top.Close()
+    env.advance(0.5)
+
   def _opening_with_deadlines(self, env, rng, out, classes):
     """Requests with short deadlines handed to timeout sink -> serializer -> ThriftMux transport
     while the connection is still being established: they expire while they wait for the open and
@@ -471,6 +584,8 @@ class C11(BaseCheck):
       self._direct(env, rng, out, classes)
     elif idx % 3 == 1:
       self._opening_with_deadlines(env, rng, out, classes)
+    if idx % 24 == 11:
+      self._abandoned_behind_backlog(env, rng, out, classes)
     ev_start = len(env.events)
     if idx % 3 == 2 and (idx // 3) % 2 == 0:
       # connections with a history: their tag pools have handed out (and still lease) the small tags,
